@@ -247,24 +247,32 @@ def sortsOK (cp : List Nat → List Nat → Except Err (DMat Int)) (order sizes 
     | .error _ => false
   | .error _ => false
 
-/-- sizes attached to the names 0,1,2,3 in the finite tables: 2, 3, 2, 2 -/
+/-- sizes attached to the names 0,1,2 in the three-subsystem table: 2, 3, 2 -/
 def sizeOfName (n : Nat) : Nat := [2, 3, 2, 2].getD n 1
 
-/-- C07 `perm_sorts`, finite table (`decide +kernel`; four subsystems of sizes 2,3,2,2, all 24 orders — not the
-unbounded claim): the matrix computed with product sizes turns the tensor layout of the given order into the
-layout in ascending name order. -/
+/-- sizes attached to the names 0,1,2,3 in the four-subsystem tables: 2, 1, 2, 3 -/
+def sizeOfName4 (n : Nat) : Nat := [2, 1, 2, 3].getD n 1
+
+/-- C07 `perm_sorts`, finite table (`decide +kernel`; four subsystems of sizes 2,1,2,3, three orders including
+the full reversal — not the unbounded claim): the matrix computed with product sizes turns the tensor layout of
+the given order into the layout in ascending name order. -/
 theorem calcPermFixed_sorts_table :
-    orders4.all (fun o => sortsOK calcPermFixed o (o.map sizeOfName)) = true := by
+    [[3, 2, 1, 0], [1, 3, 0, 2], [2, 0, 3, 1]].all
+      (fun o => sortsOK calcPermFixed o (o.map sizeOfName4)) = true := by
   decide +kernel
 
-/-- the same table for the code as written, three subsystems (all 6 orders of names 0,1,2 with sizes 2,3,2):
-correct; with four subsystems only 2 of the 24 orders (those needing at most a middle swap) succeed. -/
-theorem calcPerm_sorts_table :
-    ([[0,1,2],[0,2,1],[1,0,2],[1,2,0],[2,0,1],[2,1,0]].all
-        (fun o => sortsOK calcPerm o (o.map sizeOfName)) = true) ∧
-    (orders4.filter fun o => sortsOK calcPerm o (o.map sizeOfName)) = [[0,1,2,3],[0,2,1,3]] := by
+/-- the same check for the code as written, three subsystems (all 6 orders of names 0,1,2, sizes 2,3,2):
+correct. Finite table. -/
+theorem calcPerm_sorts_table_three :
+    [[0,1,2],[0,2,1],[1,0,2],[1,2,0],[2,0,1],[2,1,0]].all
+        (fun o => sortsOK calcPerm o (o.map sizeOfName)) = true := by
   decide +kernel
 
+/-- … and for four subsystems of sizes 2,1,2,3 the code as written fails on each of the three orders above. -/
+theorem calcPerm_sorts_table_four_fails :
+    [[3, 2, 1, 0], [1, 3, 0, 2], [2, 0, 3, 1]].all
+      (fun o => !sortsOK calcPerm o (o.map sizeOfName4)) = true := by
+  decide +kernel
 
 /-! ### finite tables (labelled as such) and the measurement-process layout -/
 
@@ -308,5 +316,115 @@ theorem mprocess_product_layout_fails :
   have := h [2, 3] [5, 7, 11]
   revert this
   decide +kernel
+
+/-! ### product statistics -/
+
+/-- Euclidean inner product of two coefficient lists (`np.vdot` on real arrays) -/
+def dotL (u v : List Rat) : Rat := lsum (List.zipWith (· * ·) u v)
+
+theorem dotL_scale (x y : Rat) (b s : List Rat) :
+    dotL (b.map fun t => x * t) (s.map fun t => y * t) = x * y * dotL b s := by
+  induction b generalizing s with
+  | nil => simp [dotL, lsum]
+  | cons b0 bs ih =>
+    cases s with
+    | nil => simp [dotL, lsum]
+    | cons s0 ss =>
+      have := ih ss
+      simp only [dotL, List.map_cons, List.zipWith_cons_cons, lsum, List.foldr_cons] at *
+      rw [this]; ring
+
+theorem dotL_append (a b c d : List Rat) (h : a.length = c.length) :
+    dotL (a ++ b) (c ++ d) = dotL a c + dotL b d := by
+  unfold dotL
+  rw [List.zipWith_append h]
+  simp [lsum_eq_sum]
+
+/-- C07 "product measurements give product statistics": for a product POVM element `Π¹_x ⊗ Π²_y` and a product
+state `ρ¹ ⊗ ρ²` (coefficient arrays, `np.kron`), the Born weight factorises, `⟪Π¹_x⊗Π²_y, ρ¹⊗ρ²⟫ = ⟪Π¹_x,ρ¹⟫·⟪Π²_y,ρ²⟫`,
+for all dimensions. -/
+theorem product_statistics (a r b s : List Rat) (h1 : a.length = r.length) (h2 : b.length = s.length) :
+    dotL (kronL a b) (kronL r s) = dotL a r * dotL b s := by
+  induction a generalizing r with
+  | nil => simp [kronL, dotL, lsum]
+  | cons x xs ih =>
+    cases r with
+    | nil => simp at h1
+    | cons y ys =>
+      have hl : (b.map fun t => x * t).length = (s.map fun t => y * t).length := by simp [h2]
+      have := ih ys (by simpa using h1)
+      simp only [kronL, List.flatMap_cons] at *
+      rw [dotL_append _ _ _ _ hl, this, dotL_scale]
+      simp only [dotL, List.zipWith_cons_cons, lsum, List.foldr_cons]
+      ring
+
+/-- layout of the raw product list of `_tensor_product_Povm_Povm` (`itertools.product(vecs1, vecs2)`): entry
+`i·|Π²| + j` is `Π¹_i ⊗ Π²_j` — first factor's outcome slow, matching `nums_local_outcomes = nums1 + nums2`. -/
+theorem povm_product_raw_layout (vs1 vs2 : List (List Rat)) (i j : Nat) (a b : List Rat)
+    (hi : vs1[i]? = some a) (hj : vs2[j]? = some b) :
+    (vs1.flatMap fun a => vs2.map fun b => kronL a b)[i * vs2.length + j]? = some (kronL a b) := by
+  have hjlt : j < vs2.length := by
+    rcases Nat.lt_or_ge j vs2.length with h | h
+    · exact h
+    · rw [List.getElem?_eq_none h] at hj; cases hj
+  induction vs1 generalizing i with
+  | nil => simp at hi
+  | cons x l ih =>
+    cases i with
+    | zero =>
+      simp only [List.getElem?_cons_zero, Option.some.injEq] at hi
+      subst hi
+      simp only [List.flatMap_cons, Nat.zero_mul, Nat.zero_add]
+      rw [List.getElem?_append_left (by simpa using hjlt)]
+      simp [hj]
+    | succ i =>
+      simp only [List.getElem?_cons_succ] at hi
+      simp only [List.flatMap_cons]
+      rw [List.getElem?_append_right (by simp [Nat.succ_mul]; omega)]
+      have : (i + 1) * vs2.length + j - (vs2.map fun b => kronL x b).length = i * vs2.length + j := by
+        simp [Nat.succ_mul]; omega
+      rw [this]
+      exact ih i hi
+
+/-! ### qutrit → two-qubit embedding (finite tables for one and two qutrits) -/
+
+theorem embedIndex_one : embedIndex 1 = [0, 1, 2, 3] := by decide
+theorem embedIndex_two :
+    embedIndex 2 = [0, 1, 2, 9, 3, 4, 5, 10, 6, 7, 8, 11, 12, 13, 14, 15] := by decide
+
+/-- C07 embedding, one qutrit (all matrices and coefficients): `_calc_matrix_from_qutrits_to_qubits` places the
+3×3 input in the top-left block, `coeff` on the remaining diagonal entry and zeros elsewhere — i.e.
+`V M Vᵀ + coeff·(1 − V Vᵀ)` for the isometry `V|i⟩ = |i⟩`. Hence an embedded state (`coeff = 0`) keeps its
+trace and entries, and embedded POVM elements (`coeff = 1/m`) still sum to the identity. -/
+theorem embed_one_block {K : Type} [Zero K] (mat : Nat → Nat → K) (coeff : K) (i j : Nat)
+    (hi : i < 4) (hj : j < 4) :
+    embedEntry 1 mat coeff i j =
+      some (if i < 3 ∧ j < 3 then mat i j else if i = j then coeff else 0) := by
+  have h := embedIndex_one
+  interval_cases i <;> interval_cases j <;> simp [embedEntry, h]
+
+/-- position of a two-qutrit basis state inside the four-qubit register (`none` = a state using level 3) -/
+def qutritIndex (i : Nat) : Option Nat := if i / 4 < 3 ∧ i % 4 < 3 then some (3 * (i / 4) + i % 4) else none
+
+/-- C07 embedding, two qutrits (finite table over the 16×16 index pairs, all matrices and coefficients): the
+entry at qubit indices `(i, j)` is the input entry at the corresponding qutrit indices when both are embedded
+basis states (`|a b⟩ ↦ |a⟩|b⟩` with `a, b < 3`), `coeff` on the rest of the diagonal and 0 elsewhere. -/
+theorem embed_two_block {K : Type} [Zero K] (mat : Nat → Nat → K) (coeff : K) (i j : Nat)
+    (hi : i < 16) (hj : j < 16) :
+    embedEntry 2 mat coeff i j =
+      some (match qutritIndex i, qutritIndex j with
+            | some p, some q => mat p q
+            | _, _ => if i = j then coeff else 0) := by
+  have h := embedIndex_two
+  interval_cases i <;> interval_cases j <;> simp [embedEntry, h, qutritIndex]
+
+/-! ### non-vacuity -/
+example : (Kmat (K := Int) 2 3).mulVec (kronVec #v[1, 2, 3] #v[10, 20]) = kronVec #v[10, 20] #v[1, 2, 3] := by
+  decide +kernel
+example : checkCross [0, 5, 2] = some 2 := by decide
+example : isShapeErr (calcPerm (K := Int) [1, 0, 2] [2, 3, 2]) = false := by decide +kernel
+example : dotL (kronL [1, 2] [3, 4, 5]) (kronL [1/2, 1] [1, 0, 2]) = dotL [1, 2] [1/2, 1] * dotL [3, 4, 5] [1, 0, 2] := by
+  decide +kernel
+
 
 end QM.C07
